@@ -99,6 +99,19 @@ func (lalr *LALR1) fetchTransIndex(state, sym int) (int, error) {
 	return MaxInt, fmt.Errorf("not found")
 }
 
+// follow the goto transitions from state along syms,
+// return -1 if there is no such path
+func (lalr *LALR1) walkStates(state int, syms []*symbol.Symbol) int {
+	for _, sy := range syms {
+		gt := lalr.G.LR0.LR0Closure[state].FindItemClosure(sy)
+		if gt == nil {
+			return -1
+		}
+		state = gt.ItemCl
+	}
+	return state
+}
+
 func (lalr *LALR1) seqenceCanEpsilon(slice []*symbol.Symbol) bool {
 	ret := true
 	for _, sy := range slice {
